@@ -8,6 +8,7 @@ import (
 	"sort"
 	"strings"
 
+	"golang.org/x/tools/go/packages"
 	"golang.org/x/tools/go/ssa"
 )
 
@@ -1058,4 +1059,103 @@ func runSlotMax(c *Ctx, r *Reporter) {
 	}
 	sort.Strings(got)
 	r.Note("Pop dependencies: %v", got)
+	symbolStoreDiscipline(p, pkg, r)
+}
+
+// symbolStoreDiscipline: the name→slot map of a symbol table and its slot counter are written by Define only
+// (constructors initialise the tables they allocate). An entry stored into a table by anything else — a look-up
+// that remembers what it found in an outer table, say — makes Define's "already defined here" test answer for a
+// variable of another scope: `x := x + 1` inside a block would get the outer x's slot, so two variables that are
+// alive at the same time share one storage slot. And the symbol stored by Define carries the table's own counter.
+func symbolStoreDiscipline(p *Program, pkg *packages.Package, r *Reporter) {
+	isTableField := func(v ssa.Value, field string) (ssa.Value, bool) { // v = &x.field of a SymbolTable
+		fa, ok := v.(*ssa.FieldAddr)
+		if !ok {
+			return nil, false
+		}
+		owner, name := fieldAddrInfo(fa)
+		if owner == nil || owner.Obj().Name() != "SymbolTable" || name != field {
+			return nil, false
+		}
+		return fa.X, true
+	}
+	n := 0
+	definesSeen := false
+	for _, fn := range ssaFuncsOf(p, pkg) {
+		k := 0
+		for _, b := range fn.Blocks {
+			for _, ins := range b.Instrs {
+				switch x := ins.(type) {
+				case *ssa.MapUpdate:
+					u, ok := x.Map.(*ssa.UnOp)
+					if !ok {
+						continue
+					}
+					tbl, ok := isTableField(u.X, "store")
+					if !ok {
+						continue
+					}
+					n++
+					k++
+					construct := fmt.Sprintf("%s#symbol-store-write[%d]", ssaQName(fn), k)
+					pos := p.Rel(instrPos(x))
+					if ssaDisplayName(fn) != "(*SymbolTable).Define" {
+						r.Viol(construct, pos, "the name→slot map of a symbol table is written outside Define: an entry that was not defined in this scope makes Define's `already defined` test answer for a variable of another scope — "+
+							"`x := x + 1` in a block then reuses the outer x's slot (two live variables share storage)")
+						continue
+					}
+					definesSeen = true
+					// key is the name parameter, table is the receiver, value is a symbol whose Index is the receiver's counter
+					good := len(fn.Params) == 2 && x.Key == ssa.Value(fn.Params[1]) && tbl == ssa.Value(fn.Params[0])
+					why := "Define stores under another key or into another table than its own"
+					if good {
+						good = false
+						why = "the symbol stored by Define does not carry the table's own slot counter (Index: s.index)"
+						var sym ssa.Value = x.Value
+						if ld, ok := sym.(*ssa.UnOp); ok && ld.Op == token.MUL {
+							if a, ok := ld.X.(*ssa.Alloc); ok {
+								if iv := storedFieldValue(a, "Index"); iv != nil {
+									if l2, ok := iv.(*ssa.UnOp); ok && l2.Op == token.MUL {
+										if t2, ok := isTableField(l2.X, "index"); ok && t2 == ssa.Value(fn.Params[0]) {
+											good = true
+										}
+									}
+								}
+							}
+						}
+					}
+					r.Check(good, construct, pos, "Define stores a symbol with the table's own counter under the defined name", why)
+				case *ssa.Store:
+					tbl, ok := isTableField(x.Addr, "index")
+					if !ok {
+						continue
+					}
+					if a, isAlloc := tbl.(*ssa.Alloc); isAlloc && a.Heap {
+						continue // a constructor initialising the table it allocates (Push; checked by #continues-numbering)
+					}
+					n++
+					k++
+					construct := fmt.Sprintf("%s#slot-counter-write[%d]", ssaQName(fn), k)
+					pos := p.Rel(instrPos(x))
+					good := false
+					if ssaDisplayName(fn) == "(*SymbolTable).Define" {
+						if bo, ok := x.Val.(*ssa.BinOp); ok && bo.Op == token.ADD {
+							if kc, ok := bo.Y.(*ssa.Const); ok && kc.Value != nil && kc.Value.ExactString() == "1" {
+								if ld, ok := bo.X.(*ssa.UnOp); ok {
+									if t2, ok := isTableField(ld.X, "index"); ok && t2 == tbl {
+										good = true
+									}
+								}
+							}
+						}
+					}
+					r.Check(good, construct, pos, "the slot counter advances by one per definition", "the slot counter of a symbol table is written other than by `index++` in Define: slots could be handed out twice or skipped")
+				}
+			}
+		}
+	}
+	if !definesSeen {
+		r.Viol("pkg/bytecode.(*SymbolTable).Define#symbol-store-write", "", "Define does not record the symbol in the table")
+	}
+	_ = n
 }
